@@ -917,3 +917,44 @@ def gen_msg_decls(rng, tier):
         d.default_arg = None
         decls.append(d)
     return decls
+
+
+# ---------------------------------------------------------------- serde corpus (C04, C10)
+
+def replace_derive(toks, traits):
+    out = []
+    i = 0
+    while i < len(toks):
+        t = toks[i]
+        if t[0] == "id" and t[1] == "derive" and i + 1 < len(toks) and toks[i + 1][0] == "g":
+            out += derive_block(traits)
+            i += 2
+        elif t[0] == "id" and t[1] == "default":
+            # drop `default = ..` (and its separating comma) : Default is not derived here
+            i += 3
+            if i < len(toks) and toks[i][0] == "c":
+                i += 1
+            elif out and out[-1][0] == "c":
+                out.pop()
+        else:
+            out.append(t)
+            i += 1
+    return out
+
+
+def gen_serde_decls(rng, tier):
+    k = 1 if tier == "quick" else 3
+    base = (gen_int_guards(rng.fork("i"), per_type=7 * k) + gen_float_guards(rng.fork("f"), per_type=16 * k) +
+            gen_str_guards(rng.fork("s"), n=56 * k) + gen_any_guards(rng.fork("a"), n=16 * k))
+    out = []
+    for d in base:
+        if any(t[0] == "id" and t[1] == "const_fn" for t in d.toks):
+            continue
+        d.toks = replace_derive(d.toks, ["Debug", "Clone", "PartialEq", "Serialize", "Deserialize"])
+        d.id = "z" + d.id
+        if d.name == "T":
+            d.name = ["T", "Amount", "Px"][len(out) % 3]
+        d.tags = set(d.tags) | {"serde"}
+        d.default_arg = None
+        out.append(d)
+    return out
